@@ -119,6 +119,7 @@ func pairVariants(c *Ctx, ctorA, ctorB, method, anchorA, anchorB string) (*varia
 	type made struct {
 		typ   *types.Named
 		flags map[string]bool
+		lits  map[string]*ssa.Function // function literals the constructor stores into fields of what it builds
 	}
 	madeBy := func(name string) *made {
 		fn := c.fn(name)
@@ -144,7 +145,7 @@ func pairVariants(c *Ctx, ctorA, ctorB, method, anchorA, anchorB string) (*varia
 				if !ok {
 					continue
 				}
-				m := &made{typ: nt, flags: map[string]bool{}}
+				m := &made{typ: nt, flags: map[string]bool{}, lits: map[string]*ssa.Function{}}
 				for _, ref := range refsOf(al) {
 					fa, ok := ref.(*ssa.FieldAddr)
 					if !ok {
@@ -154,6 +155,11 @@ func pairVariants(c *Ctx, ctorA, ctorB, method, anchorA, anchorB string) (*varia
 						if st, ok := r2.(*ssa.Store); ok {
 							if k, ok := st.Val.(*ssa.Const); ok && k.Value != nil && k.Value.Kind() == constant.Bool {
 								m.flags[fieldName(fa.X.Type(), fa.Field)] = constant.BoolVal(k.Value)
+							}
+							if mc, ok := st.Val.(*ssa.MakeClosure); ok {
+								if lf, ok := mc.Fn.(*ssa.Function); ok {
+									m.lits[fieldName(fa.X.Type(), fa.Field)] = lf
+								}
 							}
 						}
 					}
@@ -184,8 +190,58 @@ func pairVariants(c *Ctx, ctorA, ctorB, method, anchorA, anchorB string) (*varia
 	if fa == nil || fb == nil {
 		return nil, nil
 	}
+	// &funcIterator[T]{next: func() (T, bool) {…}}: the method of the shared adapter only calls the function kept in a field -
+	// the member of the pair is the literal this constructor put there
+	throughAdapter := func(f *ssa.Function, m *made) (*ssa.Function, *ast.FuncDecl, bool) {
+		if f == nil || len(f.Blocks) != 1 || len(m.lits) == 0 {
+			return nil, nil, false
+		}
+		var only *ssa.Call
+		for _, in := range f.Blocks[0].Instrs {
+			switch x := in.(type) {
+			case *ssa.Call:
+				if only != nil {
+					return nil, nil, false
+				}
+				only = x
+			case *ssa.FieldAddr, *ssa.UnOp, *ssa.Extract, *ssa.Return, *ssa.DebugRef:
+			default:
+				return nil, nil, false
+			}
+		}
+		if only == nil {
+			return nil, nil, false
+		}
+		ld, ok := only.Call.Value.(*ssa.UnOp)
+		if !ok || ld.Op != token.MUL {
+			return nil, nil, false
+		}
+		fld, ok := ld.X.(*ssa.FieldAddr)
+		if !ok {
+			return nil, nil, false
+		}
+		lit := m.lits[fieldName(fld.X.Type(), fld.Field)]
+		if lit == nil {
+			return nil, nil, false
+		}
+		var decl *ast.FuncDecl
+		if fl, isLit := lit.Syntax().(*ast.FuncLit); isLit {
+			decl = &ast.FuncDecl{Name: ast.NewIdent(method), Type: fl.Type, Body: fl.Body}
+		}
+		return lit, decl, true
+	}
+	adapted := false
+	if la, dla, ok := throughAdapter(fa, ma); ok {
+		if lb, dlb, ok := throughAdapter(fb, mb); ok {
+			fa, da, fb, db = la, dla, lb, dlb
+			adapted = true
+		}
+	}
 	va := &variant{anchor: anchorA, fn: fa, decl: da, typ: ma.typ}
 	vb := &variant{anchor: anchorB, fn: fb, decl: db, typ: mb.typ}
+	if adapted {
+		return va, vb
+	}
 	if ma.typ.Origin() == mb.typ.Origin() {
 		// one type: the direction is a constant boolean field set differently by the two constructors
 		flag := ""
